@@ -109,7 +109,7 @@ def src(cfg, k, j):
     return True
 
 
-def oracle_direct(cfg, xs, ghosts, weight=None, pairs=None):
+def oracle_direct(cfg, xs, ghosts, weight=None, pairs=None, wcond=1.0):
     """a_k = sum_{gb} sum_{j in src(k)} -G m_j w_kj d / (|d|^2+eps^2)^{3/2},  d = x_k + gb - x_j.
     returns (acc, absacc) with absacc = sum of |terms| (the scale of the rounding error)"""
     n, G, ms = cfg["N"], cfg["G"], cfg["ms"]
@@ -131,10 +131,11 @@ def oracle_direct(cfg, xs, ghosts, weight=None, pairs=None):
                     f = float("nan")
                 else:
                     f = -G * ms[j] * r2 ** -1.5
+                fa = abs(f) * wcond      # weights are evaluated with an absolute error of wcond ulps
                 if weight is not None:
                     f *= weight(k, j, math.sqrt(r2))
                 tx.append(f * dx); ty.append(f * dy); tz.append(f * dz)
-                ta.append(abs(f) * math.sqrt(dx * dx + dy * dy + dz * dz))
+                ta.append(fa * math.sqrt(dx * dx + dy * dy + dz * dz))
         out.append((math.fsum(tx), math.fsum(ty), math.fsum(tz)))
         mag.append((math.fsum(ta), len(ta)))
     return out, mag
@@ -149,7 +150,7 @@ def ghost_shifts(cfg):
             for j in range(-cfg["ngy"], cfg["ngy"] + 1) for k in range(-cfg["ngz"], cfg["ngz"] + 1)]
 
 
-def cmp_acc(got, want, mag, slack=16.0, extra=0.0):
+def cmp_acc(got, want, mag, slack=4.0, extra=0.0):
     """largest |got-want| in units of the allowed rounding error (<=1 is fine)"""
     worst, wi = 0.0, -1
     for k in range(len(got)):
@@ -255,7 +256,7 @@ def run(c):
         c.count(key, nontrivial=nontrivial and cfg["N"] >= 2)
         hist[routine] = hist.get(routine, 0) + 1
 
-    def check_oracle(routine, cfg, xs, got, want, mag, rep_extra=None, slack=16.0, keyx=""):
+    def check_oracle(routine, cfg, xs, got, want, mag, rep_extra=None, slack=4.0, keyx=""):
         q, k = cmp_acc(got, want, mag, slack)
         worst[routine] = max(worst.get(routine, 0.0), q if q != float("inf") else 1e300)
         if q > 1.0:
@@ -350,6 +351,445 @@ def run(c):
         if q > 1.0:
             viol.append(("comp-vs-basic", "COMPENSATED and BASIC differ beyond rounding on particle %d (N=%d N_active=%d type=%d ignore=%d)" % (k, n, cfg["Na"], cfg["tp"], cfg["ignore"]),
                          dict(cfg=cfg, xs=xs, particle=k, comp=got[k], basic=gb_[k])))
+
+
+    # ======================================================================= JACOBI
+    def oracle_jacobi(cfg, xs):
+        n, G, ms = cfg["N"], cfg["G"], cfg["ms"]
+        R, M, Q, Qcond = [], [], [], []
+        for j in range(n):
+            Mj = math.fsum(ms[:j])
+            Rj = [math.fsum(ms[k] * xs[k][c_] for k in range(j)) for c_ in range(3)]
+            M.append(Mj)
+            Q.append([xs[j][c_] - Rj[c_] / Mj for c_ in range(3)] if j > 1 else None)
+            # Q_j = x_j - R_j/M_j is a difference: its relative rounding error is (|x_j| + j |R_j/M_j|)/|Q_j| ulps, and enters as Q/|Q|^3
+            if j > 1:
+                nx_ = math.sqrt(sum(v * v for v in xs[j])) + (j + 1) * math.sqrt(sum((math.fsum(abs(ms[k] * xs[k][c_]) for k in range(j)) / Mj) ** 2 for c_ in range(3)))
+                Qcond.append(1.0 + 3.0 * nx_ / math.sqrt(sum(v * v for v in Q[j])))
+            else:
+                Qcond.append(1.0)
+        out, mag = [], []
+        for i in range(n):
+            t = [[], [], []]; ta = []
+            for j in range(n):
+                if j == i or {i, j} == {0, 1}:
+                    continue
+                d = [xs[i][c_] - xs[j][c_] for c_ in range(3)]
+                r2 = d[0] * d[0] + d[1] * d[1] + d[2] * d[2]
+                f = -G * ms[j] * r2 ** -1.5
+                for c_ in range(3):
+                    t[c_].append(f * d[c_])
+                ta.append(abs(f) * math.sqrt(r2))
+            for j in range(max(i, 1) + 1, n):
+                q2 = Q[j][0] ** 2 + Q[j][1] ** 2 + Q[j][2] ** 2
+                f = -G * ms[j] * q2 ** -1.5
+                for c_ in range(3):
+                    t[c_].append(f * Q[j][c_])
+                ta.append(abs(f) * math.sqrt(q2) * Qcond[j])
+            if i > 1:
+                q2 = Q[i][0] ** 2 + Q[i][1] ** 2 + Q[i][2] ** 2
+                f = G * M[i] * q2 ** -1.5
+                for c_ in range(3):
+                    t[c_].append(f * Q[i][c_])
+                ta.append(abs(f) * math.sqrt(q2) * Qcond[i])
+            out.append(tuple(math.fsum(v) for v in t))
+            mag.append((math.fsum(ta), len(ta) + i))
+        return out, mag
+
+    for case in range(70 * T):
+        rng = c.rng.fork()
+        n = gen_N(rng, big_ok=False)
+        cfg = gen_common(rng, n)
+        cfg.update(Na=-1, tp=0, ignore=1, soft=0.0)
+        if n:
+            cfg["ms"][0] = max(cfg["ms"][0], 1e-300) if cfg["ms"][0] > 0 else rng.loguniform(1e-3, 1e3)
+        xs = gen_positions(rng, n, cfg["scale"])
+        sim = new_sim(cfg, xs, integrator="whfast", gravity="jacobi")
+        sim.gravity_ignore = rng.randint(0, 2)   # the routine must not depend on it
+        for i in range(n):   # stale accelerations must be overwritten
+            sim.particles[i].ax = rng.normal(); sim.particles[i].ay = rng.normal(); sim.particles[i].az = rng.normal()
+        calc(sim)
+        got = read_acc(sim, n)
+        want, mag = oracle_jacobi(cfg, xs)
+        add_line(["jacobi", n, d2h(cfg["G"])] + body_tokens(cfg["ms"], xs), got, ("jacobi", cfg, xs, mag))
+        note("jacobi", cfg)
+        check_oracle("jacobi", cfg, xs, got, want, mag)
+
+    # the two ways WHFast computes the same kick: gravity=jacobi vs gravity=basic (+ Jacobi term in the interaction step)
+    for case in range(25 * T):
+        rng = c.rng.fork()
+        n = rng.randint(2, 9)
+        ms = [1.0] + [10 ** (-rng.uniform(2, 7)) if rng.chance(0.8) else 0.0 for _ in range(n - 1)]
+        sims = []
+        a0 = rng.uniform(0.5, 1.5)
+        orb = [(a0 * 1.5 ** i * rng.uniform(0.95, 1.05), rng.uniform(0, 0.1), rng.uniform(0, 0.1), rng.uniform(0, 6.28), rng.uniform(0, 6.28), rng.uniform(0, 6.28)) for i in range(n - 1)]
+        ntest = rng.randint(0, 2)
+        dt = rng.uniform(0.005, 0.05)
+        for grav in ("basic", "jacobi"):
+            sim = rebound.Simulation()
+            sim.integrator = "whfast"
+            sim.gravity = grav
+            sim.dt = dt
+            sim.add(m=ms[0])
+            for i in range(n - 1):
+                a, e, inc, Om, om, f = orb[i]
+                sim.add(m=ms[i + 1], a=a, e=e, inc=inc, Omega=Om, omega=om, f=f)
+            sim.steps(3)
+            sims.append(sim)
+        errs = 0.0
+        for i in range(n):
+            p, q = sims[0].particles[i], sims[1].particles[i]
+            for k_ in ("x", "y", "z", "vx", "vy", "vz"):
+                errs = max(errs, abs(getattr(p, k_) - getattr(q, k_)))
+        worst["whfast jacobi-vs-basic"] = max(worst.get("whfast jacobi-vs-basic", 0.0), errs / 1e-12)
+        c.count(("jacobi-split", n, case % 7))
+        hist["jacobi-split"] = hist.get("jacobi-split", 0) + 1
+        if not errs <= 1e-12:
+            viol.append(("jacobi-split", "WHFast with gravity=jacobi and gravity=basic disagree after 3 steps by %.3g (N=%d)" % (errs, n),
+                         dict(ms=ms, orbits=orb, dt=dt, err=errs)))
+
+    # ======================================================================= MERCURIUS (mode 0 / mode 1)
+    LNAMES = ["mercury", "C4", "C5", "infinity"]
+
+    def L_oracle(kind, d, dcrit):
+        y = (d - 0.1 * dcrit) / (0.9 * dcrit)
+        if y < 0:
+            return 0.0
+        if y > 1:
+            return 1.0
+        if kind == 0:
+            return y ** 3 * (10.0 - 15.0 * y + 6.0 * y * y)
+        if kind == 1:
+            return y ** 5 * (126.0 + y * (-420.0 + y * (540.0 + y * (-315.0 + 70.0 * y))))
+        if kind == 2:
+            return y ** 6 * (462.0 + y * (-1980.0 + y * (3465.0 + y * (-3080.0 + y * (1386.0 - 252.0 * y)))))
+        fy = math.exp(-1.0 / y) if y > 0 else 0.0
+        f1 = math.exp(-1.0 / (1.0 - y)) if 1.0 - y > 0 else 0.0
+        return fy / (fy + f1)
+
+    NULLD = ctypes.POINTER(ctypes.c_double)()
+    NULLI = ctypes.POINTER(ctypes.c_int)()
+    Lhist = {"L=0": 0, "0<L<1": 0, "L=1": 0}
+
+    def gen_enc(rng, cfg, full=False):
+        n = cfg["N"]
+        na = n if cfg["Na"] == -1 else cfg["Na"]
+        if full:
+            S = list(range(1, n))
+        else:
+            S = [i for i in range(1, n) if rng.chance(0.5)]
+        mp = [0] + S
+        encNa = len([i for i in mp if i < na])
+        return mp, len(mp), encNa
+
+    def star_term(cfg, xs, k):
+        G, m0 = cfg["G"], cfg["ms"][0]
+        x = xs[k]
+        r2 = x[0] * x[0] + x[1] * x[1] + x[2] * x[2] + cfg["soft"] ** 2
+        f = -G * m0 * r2 ** -1.5
+        return (f * x[0], f * x[1], f * x[2]), abs(f) * math.sqrt(r2)
+
+    for case in range(90 * T):
+        rng = c.rng.fork()
+        n = max(1, gen_N(rng, big_ok=False))
+        cfg = gen_common(rng, n)
+        cfg["ignore"] = 2
+        xs = gen_positions(rng, n, cfg["scale"])
+        xs[0] = [0.0, 0.0, 0.0] if rng.chance(0.7) else xs[0]
+        kind = rng.randint(0, 3)
+        dcrit = [cfg["scale"] * rng.loguniform(0.01, 30.0) for _ in range(n)]
+        full = rng.chance(0.4)
+        mp, encN, encNa = gen_enc(rng, cfg, full)
+        sim = new_sim(cfg, xs, integrator="mercurius", gravity="mercurius")
+        rim = sim.ri_mercurius
+        rim.L = LNAMES[kind]
+        dc = (ctypes.c_double * n)(*dcrit)
+        em = (ctypes.c_int * n)(*(mp + [0] * (n - len(mp))))
+        try:
+            rim._dcrit = ctypes.cast(dc, ctypes.POINTER(ctypes.c_double))
+            rim._N_allocated_dcrit = n
+            rim._encounter_map = ctypes.cast(em, ctypes.POINTER(ctypes.c_int))
+            rim._N_allocated = n
+            rim.mode = 0
+            calc(sim)
+            got0 = read_acc(sim, n)
+            init = [(rng.normal(), rng.normal(), rng.normal()) for _ in range(n)]
+            for i in range(n):
+                sim.particles[i].ax, sim.particles[i].ay, sim.particles[i].az = init[i]
+            rim.mode = 1
+            rim._encounter_N = encN
+            rim._encounter_N_active = encNa
+            calc(sim)
+            got1 = read_acc(sim, n)
+            rim.mode = 0
+            sim.gravity = "mercurius"
+        finally:
+            rim._dcrit = NULLD; rim._N_allocated_dcrit = 0
+            rim._encounter_map = NULLI; rim._N_allocated = 0
+        na = n if cfg["Na"] == -1 else cfg["Na"]
+
+        def w0(k, j, r):
+            l = L_oracle(kind, r, max(dcrit[k], dcrit[j]))
+            Lhist["L=0" if l == 0 else ("L=1" if l == 1 else "0<L<1")] += 1
+            return l
+        WC = [31.0, 1471.0, 10625.0, 8.0][kind] / 4 + 4   # sum |coefficients| of the changeover polynomial
+        want0, mag0 = oracle_direct(cfg, xs, [(0.0, 0.0, 0.0)], weight=w0, wcond=WC)
+        inmap = set(mp)
+        want1, mag1 = oracle_direct(cfg, xs, [(0.0, 0.0, 0.0)], weight=lambda k, j, r: 1.0 - L_oracle(kind, r, max(dcrit[k], dcrit[j])),
+                                    pairs=lambda k, j: k in inmap and j in inmap and src(cfg, k, j), wcond=WC)
+        w1, m1 = [], []
+        for k in range(n):
+            if k == 0:
+                w1.append((0.0, 0.0, 0.0)); m1.append((0.0, 0))
+            elif k in inmap:
+                st, sa = star_term(cfg, xs, k)
+                w1.append(tuple(math.fsum([want1[k][c_], st[c_]]) for c_ in range(3))); m1.append((mag1[k][0] + sa, mag1[k][1] + 1))
+            else:
+                w1.append(init[k]); m1.append((0.0, 0))
+        note("merc0", cfg); note("merc1", cfg)
+        # L evaluated near a clamp changes by O(1)*ulp(y): allow the rounding of y through L' <= 2.2
+        check_oracle("merc0", cfg, xs, got0, want0, mag0, dict(dcrit=dcrit, L=LNAMES[kind]))
+        check_oracle("merc1", cfg, xs, got1, w1, m1, dict(dcrit=dcrit, L=LNAMES[kind], map=mp, encN=encN, encNa=encNa, init=init))
+        if kind < 3:
+            add_line(["merc0", n, na, cfg["tp"], kind, d2h(cfg["G"]), d2h(cfg["soft"])] + body_tokens(cfg["ms"], xs) + [d2h(v) for v in dcrit],
+                     got0, ("merc0", cfg, xs, mag0))
+            add_line(["merc1", n, cfg["tp"], kind, d2h(cfg["G"]), d2h(cfg["soft"]), encN, encNa] + body_tokens(cfg["ms"], xs) + [d2h(v) for v in dcrit]
+                     + mp + [d2h(v) for a in init for v in a], got1, ("merc1", cfg, xs, m1))
+        if full and n >= 2:
+            # every particle in the encounter set: mode0 + mode1 = full planet-planet force + star term, whatever L is
+            sim2 = new_sim(cfg, xs, gravity="basic")
+            calc(sim2)
+            gb_ = read_acc(sim2, n)
+            _, magf = oracle_direct(cfg, xs, [(0.0, 0.0, 0.0)])
+            tot, ref, mg = [], [], []
+            for k in range(n):
+                if k == 0:
+                    tot.append((0.0, 0.0, 0.0)); ref.append((0.0, 0.0, 0.0)); mg.append((0.0, 0)); continue
+                st, sa = star_term(cfg, xs, k)
+                tot.append(tuple(got0[k][c_] + got1[k][c_] for c_ in range(3)))
+                ref.append(tuple(gb_[k][c_] + st[c_] for c_ in range(3)))
+                mg.append((2 * magf[k][0] + sa, magf[k][1] + 2))
+            q, kq = cmp_acc(tot, ref, mg)
+            worst["merc-split"] = max(worst.get("merc-split", 0.0), q)
+            if q > 1.0:
+                viol.append(("merc-split", "MERCURIUS mode0 + mode1 != full force + star term on particle %d (all particles in the encounter set, N=%d N_active=%d type=%d L=%s): %.3g x tolerance"
+                             % (kq, n, cfg["Na"], cfg["tp"], LNAMES[kind], q), dict(cfg=cfg, xs=xs, dcrit=dcrit, L=LNAMES[kind], particle=kq, sum=tot[kq], full=ref[kq])))
+
+    # ======================================================================= TRACE (interaction / Kepler)
+    for case in range(80 * T):
+        rng = c.rng.fork()
+        n = max(1, gen_N(rng, big_ok=False))
+        cfg = gen_common(rng, n)
+        cfg["ignore"] = 2
+        xs = gen_positions(rng, n, cfg["scale"])
+        pK = rng.choice([0.0, 0.1, 0.5, 1.0])
+        ks = [[1 if rng.chance(pK) else 0 for _ in range(n)] for _ in range(n)]
+        full = rng.chance(0.4)
+        mp, encN, encNa = gen_enc(rng, cfg, full)
+        sim = new_sim(cfg, xs, integrator="trace", gravity="trace")
+        rit = sim.ri_trace
+        kk = (ctypes.c_int * (n * n))(*[ks[a][b] * rng.choice([1, 1, 2, -1]) for a in range(n) for b in range(n)])
+        em = (ctypes.c_int * n)(*(mp + [0] * (n - len(mp))))
+        try:
+            rit._current_Ks = ctypes.cast(kk, ctypes.POINTER(ctypes.c_int))
+            rit._encounter_map = ctypes.cast(em, ctypes.POINTER(ctypes.c_int))
+            rit._N_allocated = n
+            rit._mode = 0
+            calc(sim)
+            got0 = read_acc(sim, n)
+            init = [(rng.normal(), rng.normal(), rng.normal()) for _ in range(n)]
+            for i in range(n):
+                sim.particles[i].ax, sim.particles[i].ay, sim.particles[i].az = init[i]
+            rit._mode = 1
+            rit._encounter_N = encN
+            rit._encounter_N_active = encNa
+            calc(sim)
+            got1 = read_acc(sim, n)
+            rit._mode = 0
+        finally:
+            rit._current_Ks = NULLI; rit._encounter_map = NULLI; rit._N_allocated = 0
+        na = n if cfg["Na"] == -1 else cfg["Na"]
+        K_ = lambda k, j: ks[min(k, j)][max(k, j)] != 0
+        want0, mag0 = oracle_direct(cfg, xs, [(0.0, 0.0, 0.0)], pairs=lambda k, j: src(cfg, k, j) and not K_(k, j))
+        inmap = set(mp)
+        want1, mag1 = oracle_direct(cfg, xs, [(0.0, 0.0, 0.0)], pairs=lambda k, j: k in inmap and j in inmap and src(cfg, k, j) and K_(k, j))
+        w1, m1 = [], []
+        for k in range(n):
+            if k == 0:
+                w1.append((0.0, 0.0, 0.0)); m1.append((0.0, 0))
+            elif k in inmap:
+                st, sa = star_term(cfg, xs, k)
+                w1.append(tuple(math.fsum([want1[k][c_], st[c_]]) for c_ in range(3))); m1.append((mag1[k][0] + sa, mag1[k][1] + 1))
+            else:
+                w1.append(init[k]); m1.append((0.0, 0))
+        note("trace0", cfg); note("trace1", cfg)
+        check_oracle("trace0", cfg, xs, got0, want0, mag0, dict(ks=ks))
+        check_oracle("trace1", cfg, xs, got1, w1, m1, dict(ks=ks, map=mp, encN=encN, encNa=encNa, init=init))
+        kstr = "".join("1" if ks[a][b] else "0" for a in range(n) for b in range(n))
+        add_line(["trace0", n, na, cfg["tp"], d2h(cfg["G"]), d2h(cfg["soft"])] + body_tokens(cfg["ms"], xs) + [kstr], got0, ("trace0", cfg, xs, mag0))
+        add_line(["trace1", n, cfg["tp"], d2h(cfg["G"]), d2h(cfg["soft"]), encN, encNa] + body_tokens(cfg["ms"], xs) + [kstr] + mp + [d2h(v) for a in init for v in a],
+                 got1, ("trace1", cfg, xs, m1))
+        if full and n >= 2:
+            sim2 = new_sim(cfg, xs, gravity="basic")
+            calc(sim2)
+            gb_ = read_acc(sim2, n)
+            _, magf = oracle_direct(cfg, xs, [(0.0, 0.0, 0.0)])
+            tot, ref, mg = [], [], []
+            for k in range(n):
+                if k == 0:
+                    tot.append((0.0, 0.0, 0.0)); ref.append((0.0, 0.0, 0.0)); mg.append((0.0, 0)); continue
+                st, sa = star_term(cfg, xs, k)
+                tot.append(tuple(got0[k][c_] + got1[k][c_] for c_ in range(3)))
+                ref.append(tuple(gb_[k][c_] + st[c_] for c_ in range(3)))
+                mg.append((2 * magf[k][0] + sa, magf[k][1] + 2))
+            q, kq = cmp_acc(tot, ref, mg)
+            worst["trace-split"] = max(worst.get("trace-split", 0.0), q)
+            if q > 1.0:
+                viol.append(("trace-split", "TRACE interaction + Kepler != full force + star term on particle %d (all particles in the encounter set, N=%d N_active=%d type=%d): %.3g x tolerance"
+                             % (kq, n, cfg["Na"], cfg["tp"], q), dict(cfg=cfg, xs=xs, ks=ks, particle=kq, sum=tot[kq], full=ref[kq])))
+
+    # ======================================================================= TREE
+    def tree_cells(sim):
+        roots = ctypes.cast(sim._tree_root, ctypes.POINTER(ctypes.POINTER(TreeCell)))
+        out = []
+        for i in range(sim.N_root):
+            if roots[i]:
+                out.append(roots[i].contents)
+        return out
+
+    def ser(cell, toks, leaves):
+        """preorder tokens; returns list of particle indices below"""
+        if cell.pt >= 0:
+            toks += ["L", cell.pt, cell.remote, d2h(cell.m), d2h(cell.mx), d2h(cell.my), d2h(cell.mz)]
+            return [cell.pt]
+        kids = [cell.oct[o].contents for o in range(8) if cell.oct[o]]
+        toks += ["N", d2h(cell.w), d2h(cell.m), d2h(cell.mx), d2h(cell.my), d2h(cell.mz), len(kids)]
+        mine = []
+        for kc in kids:
+            mine += ser(kc, toks, leaves)
+        leaves.append((cell, mine))
+        return mine
+
+    thist = {}
+    for case in range(60 * T):
+        rng = c.rng.fork()
+        n = gen_N(rng)
+        cfg = gen_common(rng, n)
+        cfg.update(Na=-1, tp=0, ignore=0)
+        th2 = rng.choice([0.0, 0.0, 0.0, 0.09, 0.25, 0.49, 1.0])
+        L = cfg["scale"] * rng.uniform(6, 12)
+        bnd = rng.choice(["open", "periodic"])
+        gx, gy, gz = (rng.randint(0, 1), rng.randint(0, 1), rng.randint(0, 1)) if (rng.chance(0.4) and n <= 40) else (0, 0, 0)
+        nr = rng.choice([(1, 1, 1), (1, 1, 1), (2, 1, 1), (2, 2, 1), (1, 2, 3)])
+        cfg.update(boundary=bnd, shifted=1, ngx=gx, ngy=gy, ngz=gz, bs=(L, L, L))
+        sim = rebound.Simulation()
+        sim.G = cfg["G"]; sim.softening = cfg["soft"]
+        sim.gravity = "tree"
+        sim.opening_angle2 = th2
+        sim.configure_box(L, nr[0], nr[1], nr[2])
+        sim.boundary = bnd
+        sim.N_ghost_x, sim.N_ghost_y, sim.N_ghost_z = gx, gy, gz
+        cfg["bs"] = (sim.boxsize.x, sim.boxsize.y, sim.boxsize.z)
+        xs = gen_positions(rng, n, cfg["scale"])
+        xs = [[max(-0.49 * cfg["bs"][c_], min(0.49 * cfg["bs"][c_], p[c_])) for c_ in range(3)] for p in xs]
+        if len(set(tuple(p) for p in xs)) != len(xs):
+            continue
+        for i in range(n):
+            sim.add(m=cfg["ms"][i], x=xs[i][0], y=xs[i][1], z=xs[i][2])
+        clib.reb_simulation_update_tree(ctypes.byref(sim))
+        clib.reb_simulation_update_tree_gravity_data(ctypes.byref(sim))
+        if sim.N != n:
+            continue
+        xs = [[sim.particles[i].x, sim.particles[i].y, sim.particles[i].z] for i in range(n)]   # update_tree may reorder
+        cfg["ms"] = [sim.particles[i].m for i in range(n)]
+        calc(sim)
+        got = read_acc(sim, n)
+        toks, cells = [], []
+        roots = tree_cells(sim)
+        nleaf = 0
+        for rc_ in roots:
+            nleaf += len(ser(rc_, toks, cells))
+        if nleaf != n:
+            viol.append(("tree:leaves", "tree holds %d leaves for %d particles" % (nleaf, n), dict(cfg=cfg, xs=xs)))
+            continue
+        members = {ctypes.addressof(cc): mm for cc, mm in cells}
+        gh = ghost_shifts(cfg)
+        want, mag = oracle_direct(cfg, xs, gh, pairs=lambda k, j: k != j)
+        add_line(["tree", n, 1, gx, gy, gz, d2h(cfg["G"]), d2h(cfg["soft"]), d2h(th2), d2h(cfg["bs"][0]), d2h(cfg["bs"][1]), d2h(cfg["bs"][2])]
+                 + body_tokens(cfg["ms"], xs) + [len(roots)] + toks, got, ("tree", cfg, xs, mag))
+        key = "tree0" if th2 == 0.0 else "treeT"
+        note(key, cfg)
+        thist[str(th2)] = thist.get(str(th2), 0) + 1
+        # cell data = total mass and centre of mass of the leaves below (fsum)
+        for cell, mine in cells:
+            mt = math.fsum(cfg["ms"][i] for i in mine)
+            okc = abs(cell.m - mt) <= 1e-13 * abs(mt) + 0.0
+            if mt > 0:
+                for c_, val in enumerate((cell.mx, cell.my, cell.mz)):
+                    com = math.fsum(cfg["ms"][i] * xs[i][c_] for i in mine) / mt
+                    sc = max(abs(xs[i][c_]) for i in mine)
+                    okc = okc and abs(val - com) <= 1e-12 * sc * max(1.0, len(mine) / 8)
+            if not okc:
+                viol.append(("tree:celldata", "tree cell (w=%g, %d particles) does not carry the total mass / centre of mass of its particles" % (cell.w, len(mine)),
+                             dict(cfg=cfg, xs=xs, members=mine, m=cell.m, com=(cell.mx, cell.my, cell.mz))))
+                break
+        if th2 == 0.0:
+            check_oracle("tree0", cfg, xs, got, want, mag)
+            third_law("tree0", cfg, xs, got, mag, torque=(len(gh) == 1))
+        else:
+            # spec walk: accept a cell iff w^2 <= theta^2 r^2; monopole error of an accepted cell <= 6 G sum m_i rho_i^2 / (r - s)^4
+            G, s2_ = cfg["G"], cfg["soft"] ** 2
+            worstq = 0.0
+            for k in range(n):
+                bound = 0.0
+                unb = False
+                selfimg = [[], [], []]     # the particle's own periodic images absorbed in accepted cells
+                for gb in gh:
+                    pos = (xs[k][0] + gb[0], xs[k][1] + gb[1], xs[k][2] + gb[2])
+                    stack = list(roots)
+                    while stack:
+                        cell = stack.pop()
+                        if cell.pt >= 0:
+                            continue
+                        dx, dy, dz = pos[0] - cell.mx, pos[1] - cell.my, pos[2] - cell.mz
+                        r2 = dx * dx + dy * dy + dz * dz
+                        if cell.w * cell.w > th2 * r2:
+                            stack += [cell.oct[o].contents for o in range(8) if cell.oct[o]]
+                        else:
+                            mine = members[ctypes.addressof(cell)]
+                            r = math.sqrt(r2)
+                            rho2 = [(xs[i][0] - cell.mx) ** 2 + (xs[i][1] - cell.my) ** 2 + (xs[i][2] - cell.mz) ** 2 for i in mine]
+                            smax = math.sqrt(max(rho2))
+                            if smax >= 0.9 * r:
+                                unb = True
+                            else:
+                                bound += 6 * G * math.fsum(abs(cfg["ms"][i]) * q for i, q in zip(mine, rho2)) / (r - smax) ** 4
+                            if k in mine:
+                                g2 = gb[0] * gb[0] + gb[1] * gb[1] + gb[2] * gb[2] + s2_
+                                f = -G * cfg["ms"][k] * g2 ** -1.5 if g2 > 0 else float("nan")
+                                for c_ in range(3):
+                                    selfimg[c_].append(f * gb[c_])
+                if unb:
+                    continue
+                tol = (mag[k][1] + 8) * 16 * EPS * mag[k][0]
+                e = math.sqrt(sum((got[k][c_] - want[k][c_]) ** 2 for c_ in range(3)))
+                q = e / (bound + 3 * tol) if bound + tol > 0 else (0.0 if e == 0 else float("inf"))
+                if q > 1.0 and selfimg[0]:
+                    e2 = math.sqrt(sum((got[k][c_] - want[k][c_] - math.fsum(selfimg[c_])) ** 2 for c_ in range(3)))
+                    if e2 <= bound + 3 * tol:
+                        viol.append(("FC02a:tree-ghost-self-image", "TREE with ghost boxes and opening_angle2=%g adds particle %d's own periodic image (error %.3g, multipole bound %.3g; "
+                                     "bound holds once the self-image term is added to the reference)" % (th2, k, e, bound),
+                                     dict(cfg=cfg, xs=xs, theta2=th2, particle=k, err=e, err_with_self_image=e2, bound=bound)))
+                        c.cov["tree_self_image_cases"] = c.cov.get("tree_self_image_cases", 0) + 1
+                        continue
+                worstq = max(worstq, q)
+                if q > 1.0:
+                    viol.append(("treeT", "TREE with opening_angle2=%g: error of particle %d is %.3g, multipole bound %.3g (N=%d)" % (th2, k, e, bound, n),
+                                 dict(cfg=cfg, xs=xs, theta2=th2, particle=k, err=e, bound=bound)))
+                    break
+            worst["treeT"] = max(worst.get("treeT", 0.0), worstq)
+    c.cov["tree_opening_angle2_histogram"] = thist
+    c.cov["mercurius_L_branch_histogram"] = Lhist
 
     c.log("generated %d model lines" % len(lines))
     # ======================================================================= run the model
